@@ -363,10 +363,20 @@ class Runner(object):
         self.R = rest_driver.get()
         self.R.restore()
         self.R.restore_rules()
-        self.eps = tr_e.analyse(core.REPO)['endpoints']
+        self.drv = ctx.driver()
+        self.stale = False
+        try:
+            self.eps = tr_e.analyse(core.REPO)['endpoints']
+        except Exception:
+            # the translator refused (already recorded as a broken tie by the framework): keep the monitors
+            # running on the last table that was generated (the one the Lean side still has)
+            self.stale = True
+            self.eps = []
+            for i, e in enumerate(self.drv.call('rest.endpoints', {})):
+                e = dict(e, idx=i, params=(['all_projects', 'project_id'] if e['acceptsAllProjects'] else []))
+                self.eps.append(e)
         self.rules = tr_p.load_rules(core.REPO)
         self.T = templates(self.R)
-        self.drv = ctx.driver()
         self.rule_names = [n for n, _, _ in self.rules]
 
     # one request through the app with everything observed
@@ -455,6 +465,14 @@ class Runner(object):
                                              changed=obs['changed'], engine=obs['engine']),
                                   {'kind': 'denied-rule-not-enforced-first',
                                    'endpoint': '%s.%s' % (ep['cls'], ep['method']), 'rule': monitor_denied_rule})
+            if (tpl.get('listkey') and not _is_admin(actor) and obs['status'] == 200 and
+                    not flags.get('allProjects') and isinstance(obs['body'], dict)):
+                ids = json.dumps(obs['body'].get(tpl['listkey']))
+                if self.R.fx.get(tpl['foreign']) in ids or tpl['foreign'] in ids:
+                    ctx.violation('GET %s by a non-admin without all_projects returned another project\'s private '
+                                  'resource' % ep['path'], dict(case_desc, kind='list-leak'),
+                                  {'kind': 'list-without-all-projects-leaks',
+                                   'endpoint': '%s.%s' % (ep['cls'], ep['method'])})
             if len(ctx.cov['samples']) < 6 and nontrivial and ctx.rng.random() < 0.05:
                 ctx.sample({'case': case_desc, 'model': mo, 'impl_status': obs['status'], 'db_changed': obs['changed']})
             return obs
@@ -475,7 +493,7 @@ def stream_rest(ctx, run):
     mine = [{'cls': e['cls'], 'method': e['method'], 'http': e['http'], 'path': e['path'],
              'acceptsAllProjects': e['acceptsAllProjects'], 'acceptsScope': e['acceptsScope'],
              'enforces': [{'rule': x['rule'], 'guard': x['guard']} for x in e['enforces']]} for e in eps]
-    if lean_eps != mine:
+    if lean_eps != mine and not run.stale:
         ctx.disagree('rest', 'endpoint table', 'Gen/Endpoints.lean', 'translate.endpoints.analyse differs')
         return
     order = list(eps)
@@ -557,17 +575,31 @@ def all_projects_cases(ctx, run, ep, doc):
     pv = PolicyView(run.rules)
     r = fam + ':list:all_projects'
     if pv.check(r) is not None:
-        obs = run.case('rest', ep, 'all_projects:default-non-admin', True, fl, 'memberA', {})
-        if obs is not None and obs['status'] != 403:
-            ctx.violation('GET %s?all_projects=true by a non-admin under the default policy answered %d' % (
-                ep['path'], obs['status']),
-                {'kind': 'all-projects-default', 'endpoint': [ep['cls'], ep['method'], ep['path']],
-                 'actor': 'memberA', 'status': obs['status']},
-                {'kind': 'all-projects-rule-not-admin-only', 'endpoint': '%s.%s' % (ep['cls'], ep['method'])})
-    if 'project_id' in ep['params'] and any(x['guard'] == 'allProjectsOrProjectId' for x in ep['enforces']):
+        for actor in ('memberA', 'viewerA'):
+            obs = run.case('rest', ep, 'all_projects:default-non-admin:' + actor, True, fl, actor, {})
+            if obs is not None and obs['status'] != 403:
+                ctx.violation('GET %s?all_projects=true by a non-admin (%s) under the default policy answered %d' % (
+                    ep['path'], actor, obs['status']),
+                    {'kind': 'all-projects-default', 'endpoint': [ep['cls'], ep['method'], ep['path']],
+                     'actor': actor, 'status': obs['status']},
+                    {'kind': 'all-projects-rule-not-admin-only', 'endpoint': '%s.%s' % (ep['cls'], ep['method'])})
+    if 'project_id' in ep['params']:
+        # filtering on another project's id must not widen what a non-admin sees
         from harness import rest_driver as rd
         fl2 = {'allProjects': False, 'projectId': rd.PROJ_B, 'scopePublic': False}
-        run.case('rest', ep, 'project_id:non-admin', True, fl2, 'memberA', {})
+        obs = run.case('rest', ep, 'project_id:non-admin', True, fl2, 'memberA', {doc: '@'})
+        if obs is not None and obs['status'] != 403:
+            tpl = obs['tpl']
+            body = obs['body']
+            if isinstance(body, dict) and tpl.get('listkey') in body:
+                ids = json.dumps(body[tpl['listkey']])
+                if run.R.fx.get(tpl['foreign']) in ids or tpl['foreign'] in ids:
+                    ctx.violation(
+                        'GET %s?project_id=<other project> by a non-admin returned that project\'s private resource'
+                        % ep['path'],
+                        {'kind': 'all-projects', 'endpoint': [ep['cls'], ep['method'], ep['path']],
+                         'actor': 'memberA', 'status': obs['status']},
+                        {'kind': 'project-id-filter-leaks', 'endpoint': '%s.%s' % (ep['cls'], ep['method'])})
 
 
 def publicize_cases(ctx, run, ep, doc):
@@ -617,6 +649,22 @@ def stream_policy(ctx, run, n):
             # requests the template was built for (owner) are compared on their status set
             pass
         run.case('policy', ep, 'random:' + json.dumps([sorted(over.items()), fl, actor]), present, fl, actor, over)
+
+
+# ----------------------------------------------------------------------------- stream cross (thorough)
+def stream_cross(ctx, run):
+    """Every exercised endpoint x every registered rule denied alone (guards on): only the rules the table lists
+    for the endpoint may matter."""
+    for ep in run.eps:
+        k = (ep['path'], ep['method'])
+        if k not in run.T or k in NOT_EXERCISED:
+            continue
+        fam_admin = ep['enforces'] and PolicyView(run.rules).check(ep['enforces'][0]['rule']) == 'rule:admin_only'
+        for rule in run.rule_names:
+            if rule in ('admin_only', 'admin_or_owner'):
+                continue
+            run.case('cross', ep, 'deny-any:' + rule, True, flags_for(ep, True), 'adminA', {rule: '!'})
+        _ = fam_admin
 
 
 # ----------------------------------------------------------------------------- stream guards
@@ -775,7 +823,9 @@ def stream_guards(ctx, run, thorough):
                 and cur not in FINAL:
             ctx.violation('unfinished execution (%s) deleted without force (force=%r)' % (cur, force),
                           {'kind': 'guard', 'op': 'execDelete', 'current': cur, 'force': force, 'status': status},
-                          {'kind': 'exec-delete-unfinished-without-force', 'force': force})
+                          {'kind': 'exec-delete-unfinished-without-force',
+                           'force': 'absent' if force is None else ('empty' if force == '' else
+                                                                    'non-empty text other than true/1/yes')})
         finish()
 
     # ---------------- PUT /v2/tasks/{id}
@@ -785,8 +835,8 @@ def stream_guards(ctx, run, thorough):
             for reset in (None, False, True):
                 for wi in (False, True):
                     cases.append((cur, req, reset, wi, None, None, None))
-    for req in ('RUNNING', 'SKIPPED', 'SUCCESS'):
-        for cur in ('ERROR', 'SUCCESS'):
+    for req in (('RUNNING', 'SKIPPED', 'SUCCESS') if not thorough else ('',) + ALL_STATES):
+        for cur in (('ERROR', 'SUCCESS') if not thorough else ALL_STATES):
             for name in (None, 't1', 'other'):
                 for wfn in (None, 'wf_A_private', 'other_wf'):
                     for env in (None, '{"k": 1}'):
@@ -926,7 +976,9 @@ def correspond(ctx):
             type(e).__name__, e))
         return
     stream_rest(ctx, run)
-    stream_policy(ctx, run, ctx.n(150, 1500))
+    stream_policy(ctx, run, ctx.n(150, 4000))
+    if ctx.thorough():
+        stream_cross(ctx, run)
     stream_guards(ctx, run, ctx.thorough())
     ctx.cov['exhaustive'] = {'rest': True, 'guards': ctx.thorough()}
 
